@@ -786,6 +786,8 @@ class Run:
                 continue  # first assigned inside the loop: local to an iteration
             cur = o.vars[name]
             pre_vars[name] = cur
+            if isinstance(cur, Val) and isinstance(cur.ty, TRef) and name not in x.loop_rebound:
+                continue      # a reference that is only mutated THROUGH: the heap changes, the reference does not
             if isinstance(cur, Val) and cur.ty is not TNone:
                 nv = Val(cur.ty, cur.ty.fresh(f"{name}!l{ordinal}"))
                 o.vars[name] = nv
@@ -888,7 +890,8 @@ class Run:
         if isinstance(v, str):
             return mk_str(v)
         if isinstance(v, bytes):
-            return mk_str(v.decode("latin-1"))
+            r = mk_str(v.decode("latin-1"))
+            return Val(r.ty, r.t, pykind="bytes")
         if v is Ellipsis:
             return Conc(Ellipsis)
         raise EngineError(f"unsupported constant {v!r}")
